@@ -791,7 +791,7 @@ func ruleC18Names(r *Run, p *Program, rule string) {
 		}
 		if r.anchor(rule, "openSegment call in openDatalog", len(oss) > 0) {
 			for _, nd := range oss {
-				checkSkipsDeep(r, p, rule, "pogreb.openDatalog:opens-all-segments", nd, func(c *Cond) bool {
+				checkSkipsDeepContinue(r, p, rule, "pogreb.openDatalog:opens-all-segments", nd, func(c *Cond) bool {
 					eq, ok := c.holdsEq()
 					if !ok || eq {
 						return false
